@@ -113,7 +113,7 @@ Fixpoint save_item (v : mval) : res item :=
   | MSc (SB b) => Ok (IData "bool" (DsSc (SB b)))
   | MSc x => if sc_storable x then Ok (IData "number" (DsSc x)) else Err ENumpy
   | MNp (SB _) => Err EOther
-  | MNp x => if sc_storable x then Ok (IData "number" (DsSc x)) else Err ENumpy
+  | MNp x => Ok (IData "number" (DsSc x))          (* dtype = type(v): a numpy scalar is stored as its own dtype *)
   | MArr dt sh t => if h5_dtype_ok dt then Ok (IData "array" (DsArr dt sh t)) else Err EH5
   | MTuple xs => save_seq true xs
   | MList xs => save_seq false xs
